@@ -2,7 +2,7 @@ SPECIFICATION Spec
 CONSTANTS
   Limits = {"0", "1", "2k", "64k"}
   Sizes = {"natural", "lim-1", "lim", "lim+1", "x100", "x1000"}
-  Entries = {"validate", "info", "predecodeResp", "predecodeLogout", "logoutReq", "logoutResp"}
+  Entries = {"validate", "validateEncInner", "info", "predecodeResp", "predecodeLogout", "logoutReq", "logoutResp"}
 INVARIANTS InvC12 RunAgrees Emit
 PROPERTIES Frozen Terminates
 CHECK_DEADLOCK FALSE
